@@ -198,7 +198,9 @@ var templates = []string{
 	// script goroutines that share nothing but the interpreter: each keeps defining functions of many parameters
 	"go func() { for ci = 0; ci < 200; ci++ { fa = func(%p) { return 1 } } }()\ngo func() { for ck = 0; ck < 200; ck++ { fb = func(%p) { return 2 } } }()\nfor cj = 0; cj < 200; cj++ { fc = func(%p) { return 3 } }",
 	"func mk1() { return func(%p) { return 1 } }\nfunc mk2() { return func(%p) { return 2 } }\ngo mk1()\ngo mk2()\ngo mk1()\nmk2()",
-	// the same with parameter counts up to 125 (%P: a list of 8 to 20 function literals of drawn parameter counts): the calling
+	// functions of very many parameters (%L: 100 .. 1000 names, around and beyond what reflect.FuncOf takes) in every position a function is made
+	"func(%L) { return 1 }", "fb = func(%L) { return q0 }\nfb(%s)", "func fb(%L) { return 1 }\nfb(%s...)", "go func(%L) { }(%s)", "defer func(%L) { }()", "module mb { func fb(%L) { return 1 } }\nmb.fb(%s)", "func(a) { return func(%L) { return a } }(%s)", "cb(func(%L) { return 1 })",
+	// the same with parameter counts in the hundreds (%P: a list of 8 to 20 function literals of drawn parameter counts): the calling
 	// goroutine defines functions of counts not seen before while script goroutines keep defining a function of one count
 	"func rd() { for ck = 0; ck < 400; ck++ { func(%p) { return 0 } } }\ngo rd()\ngo rd()\ngo rd()\nfor cw = 0; cw < 150; cw++ { }\n%P", "func rd() { for ck = 0; ck < 400; ck++ { func(%p) { return 0 } } }\ngo rd()\ngo rd()\n%P",
 	"func mk() { return %P }\ngo mk()\ngo mk()\ngo mk()\nmk()", "go func() { %P }()\ngo func() { %P }()\n%P",
@@ -357,10 +359,20 @@ func (c *Case) fill(t *rapid.T, tmpl string) string {
 				k := 8 + int(rapid.Uint64().Draw(t, "nliterals")%13)
 				var lits []string
 				for j := 0; j < k; j++ {
-					lits = append(lits, "func("+c.paramList(t, 5+int(rapid.Uint64().Draw(t, "nparams")%131))+") { return 1 }")
+					lits = append(lits, "func("+c.paramList(t, 5+int(rapid.Uint64().Draw(t, "nparams")%121))+") { return 1 }")
+				}
+				if rapid.Uint64().Draw(t, "long")%6 == 0 {
+					// one literal of a count from longParamCounts at the end (the list is evaluated up to it)
+					lits = append(lits, "func("+c.paramList(t, longParamCounts[int(rapid.Uint64().Draw(t, "nlong")%uint64(len(longParamCounts)))])+") { return 1 }")
 				}
 				c.Tags = append(c.Tags, "many-parameter-literals")
 				b.WriteString("[" + strings.Join(lits, ", ") + "]")
+				i++
+				continue
+			}
+			if tmpl[i+1] == 'L' {
+				// a long parameter list
+				b.WriteString(c.paramList(t, longParamCounts[int(rapid.Uint64().Draw(t, "nlong")%uint64(len(longParamCounts)))]))
 				i++
 				continue
 			}
@@ -386,13 +398,11 @@ func (c *Case) fill(t *rapid.T, tmpl string) string {
 	return b.String()
 }
 
-// paramList gives n parameter names, half of the time with a variadic tail. A function of 126 or more parameters
-// makes the unchanged interpreter panic (reflect.FuncOf: too many arguments, a defect reported separately): that
-// shape is excluded by construction, the count is cut to 125 and the cut is counted.
+// paramList gives n parameter names, half of the time with a variadic tail.
 func (c *Case) paramList(t *rapid.T, n int) string {
 	if n > 125 {
-		n = 125
-		c.Tags = append(c.Tags, "excluded-shape_function-of-126-or-more-parameters_cut-to-125")
+		// more parameters than reflect.FuncOf takes for a function built through it
+		c.Tags = append(c.Tags, "function-of-126-or-more-parameters")
 	}
 	var ps []string
 	for k := 0; k < n; k++ {
@@ -404,6 +414,9 @@ func (c *Case) paramList(t *rapid.T, n int) string {
 	}
 	return list
 }
+
+// parameter counts around and far beyond what reflect.FuncOf takes (128 in and out values together)
+var longParamCounts = []int{100, 124, 125, 126, 127, 128, 129, 200, 255, 256, 1000}
 
 func genOperand(t *rapid.T, depth int) string {
 	if depth > 0 && rapid.IntRange(0, 5).Draw(t, "nest") == 0 {
